@@ -11,6 +11,7 @@ import MD.Model.Marginal
 import MD.Model.Validate
 import MD.Model.Plot
 import MD.Model.Axes
+import MD.Model.Heap
 /-! JSON-lines driver: one request per line on stdin, one response per line on stdout. -/
 open Lean MD
 
@@ -278,7 +279,8 @@ def handle (j : Json) : Except String Json := do
     | none => throw "unknown score kind"
     | some k =>
       let sf : SF Float := { kind := k, h := h, α := α, elem := elem }
-      match decompose sf fnGiven lvGiven y cols w with
+      let plain := match j.getObjVal? "plain" with | .ok (.bool b) => b | _ => false
+      match (if plain then decomposePlain sf fnGiven lvGiven y cols w else decompose sf fnGiven lvGiven y cols w) with
       | .error e => pure (errJson e)
       | .ok rows => pure (Json.mkObj [("rows", .arr (rows.map (fun r =>
           floatsToJson [r.mcb, r.dsc, r.unc, r.score])).toArray)])
@@ -364,6 +366,39 @@ def handle (j : Json) : Except String Json := do
           | .num n => some n.mantissa.toNat | _ => none))
       | _ => none
     pure (Json.mkObj [("pd", ratsToJson (partialDependence (predFamily a b c jj k) X jj grid w sub))])
+  | "pd_own" =>
+    -- ownership model: the caller's X as objects of a store. "objs" = the distinct row objects, "refs" = which object
+    -- each row of the list X is (the same object may occur twice); container "matrix" = one 2-d object
+    let objs ← getRatMatrix j "objs"
+    let container ← getStr j "container"
+    let refs : List Nat := match j.getObjVal? "refs" with
+      | .ok (.arr arr) => arr.toList.filterMap (fun v => match v with | .num n => some n.mantissa.toNat | _ => none)
+      | _ => List.range objs.length
+    let jj ← getNat j "j"
+    let k ← getNat j "k"
+    let a ← getRat j "a"
+    let b ← getRat j "b"
+    let c ← getRat j "c"
+    let grid ← getRats j "grid"
+    let w ← getOptRats j "w"
+    let sub : Option (List Nat) := match j.getObjVal? "sub" with
+      | .ok (.arr arr) => some (arr.toList.filterMap (fun v => match v with
+          | .num n => some n.mantissa.toNat | _ => none))
+      | _ => none
+    let rowsJson (rs : List (List Rat)) : Json := .arr (rs.map ratsToJson).toArray
+    if container = "matrix" then
+      let s0 : MD.Own.Store Rat := [.mat (refs.map (fun r => objs[r]!))]
+      let (s1, xs, pd) := MD.Own.pdMatrix (predFamily a b c jj k) s0 0 jj grid w sub
+      pure (Json.mkObj [("pd", ratsToJson pd), ("caller_after", rowsJson (MD.Own.getMat s1 0)),
+        ("shown", rowsJson (MD.Own.getMat s1 xs)), ("fresh", .bool (decide (xs ≥ s0.length)))])
+    else
+      let s0 : MD.Own.Store Rat := objs.map (fun r => MD.Own.Obj.vec r) ++ [.refs refs]
+      let x := objs.length
+      let (s1, xs, pd) := MD.Own.pdList (predFamily a b c jj k) s0 x jj grid w sub
+      pure (Json.mkObj [("pd", ratsToJson pd), ("caller_after", rowsJson (MD.Own.rowsOf s1 x)),
+        ("caller_refs_after", natsToJson (MD.Own.getRefs s1 x)),
+        ("shown", rowsJson (MD.Own.rowsOf s1 xs)),
+        ("fresh", .bool ((MD.Own.getRefs s1 xs).all (fun r => decide (r ≥ s0.length))))])
   | "murphy" =>
     let f ← getStr j "f"
     let α ← getRat j "level"
